@@ -1367,9 +1367,10 @@ fn match_of(
         }
         return res;
     } else {
-        // NOTE: A single expression can provide at most one hit
+        // NOTE: A single expression can provide at most one hit, so just like a group of one whose
+        // only member is true the count is not reached and nothing was false
         return match solve_expression(expression, identifiers, document) {
-            SolverResult::True if count > 1 => SolverResult::False,
+            SolverResult::True if count > 1 => SolverResult::Missing,
             res => res,
         };
     }
